@@ -2,7 +2,7 @@
 use crate::ctx::{Case, Ctx};
 use crate::json::J;
 use crate::prng::{fnv, Rng};
-use crate::refs::archive::{self, endian, RefArchive};
+use crate::refs::archive::{self, RefArchive};
 use crate::refs::strings::{gen_ident, gen_sjis, sjis_decode, sjis_ok};
 use mila::{BinArchive, BinArchiveReader, BinArchiveWriter};
 
